@@ -43,7 +43,7 @@ def run(ctx):
     # ---- R14.2
     nf = b.call_blocks(JOB + 'non_finished_task_ids')
     ab = b.call_blocks(JOB + 'abort_tasks')
-    ctx.floor('R14.2', len(ab), 2, 'abort_tasks calls in process_task_failed')
+    ctx.floor('R14.2', len(ab), 1, 'abort_tasks calls in process_task_failed')
     true_region = set()
     for sb, ts in t_edges:
         true_region |= b.reach_from([ts], avoid_edges=f_edges)
@@ -119,4 +119,4 @@ def _r145(ctx):
         ok, _ = must_pass(b, [bi], inc)
         ctx.ob('R14.5', f'set_failed_state|{"+".join(sorted(old)) if old else "?"}->Failed|counted', ok or bi in inc,
                f'a failure from state {sorted(old) if old else old} increments n_failed_tasks (launch errors and crash-limit failures fail a task that is still Waiting)', b.loc(bi, s))
-    ctx.floor('R14.5', n, 2, 'Failed writes in set_failed_state')
+    ctx.floor('R14.5', n, 1, 'Failed writes in set_failed_state')
